@@ -965,6 +965,112 @@ func genStaleLock(r *rand.Rand) core.Case {
 	return g.finish("stale-lock")
 }
 
+// a multi-round skip over the round of the releasing polka: X locks b0 in round 0 and is cut off; Y
+// and Z lock B on the polka of round 2 and walk on to round 6 without deciding; stray votes of later
+// rounds (rounds 3..8, each peer being the first to show X two of them) use up every peer's two catch-up rounds
+// at X and make it skip 0 -> 6; only then is X handed the polka of round 2. SetRound has created
+// the vote sets of all skipped rounds, so the prevotes are taken, X unlocks and the height terminates.
+func genSkipOverPolka(r *rand.Rand) core.Case {
+	w := getWorld([]int64{1, 1, 1, 1}, nil, 0)
+	// proposers are 0,1,2,3,…: X = validator 0 proposes round 0, Z = validator 2 proposes round 2
+	byz := 3
+	g := newGen(r, w, complement(4, []int{byz}))
+	X, Y, Z := 0, 1, 2
+	b0, B := w.proposers[0], w.proposers[2]
+	if g.idx(X) != w.proposers[0] || g.idx(Z) != w.proposers[2] || w.proposers[1] != g.idx(Y) {
+		return genStaleLock(r)
+	}
+	for i := range g.nt.nodes {
+		g.fire(i)
+	}
+	// round 0: only X sees the polka for b0 (as in genStaleLock)
+	g.dlMatch(Y, func(m *msg) bool { return (m.kind == "prop" && m.r == 0) || (m.kind == "block" && m.b == b0) })
+	g.fireIf(Z, cstypes.RoundStepPropose)
+	kB := g.byzVote("pv", 0, b0, byz)
+	kN := g.byzVote("pv", 0, -1, byz)
+	g.dl(X, kB)
+	g.dl(Y, kN)
+	g.dl(Z, kN)
+	correctOf := func(t string, rr int) func(*msg) bool {
+		return func(m *msg) bool { return m.kind == "vote" && m.t == t && m.r == rr && m.by != byz }
+	}
+	for _, i := range []int{X, Y, Z} {
+		g.dlMatch(i, correctOf("pv", 0))
+	}
+	g.fireIf(Y, cstypes.RoundStepPrevoteWait)
+	g.fireIf(Z, cstypes.RoundStepPrevoteWait)
+	g.byzVote("pc", 0, -1, byz)
+	yz := []int{Y, Z}
+	endRound := func(rr int) {
+		g.byzVote("pc", rr, -1, byz)
+		for _, i := range yz {
+			g.dlMatch(i, isVote("pc", rr))
+		}
+		for _, i := range yz {
+			g.fireIf(i, cstypes.RoundStepPrecommitWait)
+		}
+	}
+	for _, i := range yz {
+		g.dlMatch(i, isVote("pc", 0))
+		g.fireIf(i, cstypes.RoundStepPrecommitWait)
+	}
+	// a round without polka among Y and Z (X is cut off)
+	nilRound := func(rr int) {
+		for _, i := range yz {
+			g.fireIf(i, cstypes.RoundStepPropose)
+		}
+		g.byzVote("pv", rr, -1, byz)
+		for _, i := range yz {
+			g.dlMatch(i, isVote("pv", rr))
+		}
+		for _, i := range yz {
+			g.fireIf(i, cstypes.RoundStepPrevoteWait)
+		}
+		endRound(rr)
+	}
+	nilRound(1)
+	// round 2: Z proposes B; Y and Z see the polka (with the faulty validator's prevote) and lock B
+	g.dlMatch(Y, func(m *msg) bool { return (m.kind == "prop" && m.r == 2) || (m.kind == "block" && m.b == B) })
+	g.byzVote("pv", 2, B, byz)
+	for _, i := range yz {
+		g.dlMatch(i, isVote("pv", 2))
+	}
+	endRound(2)
+	if lb := g.nt.nodes[Y].node.RS().LockedRound; lb == 2 && g.nt.nodes[Z].node.RS().LockedRound == 2 {
+		stat("locked-by-polka-of-round-2")
+	}
+	nilRound(3)
+	nilRound(4)
+	nilRound(5)
+	for _, i := range yz {
+		g.fireIf(i, cstypes.RoundStepPropose)
+	}
+	g.byzVote("pv", 6, -1, byz)
+	// stray votes: each peer's two catch-up rounds at X are used up, the second one by round 6
+	voteOf := func(t string, rr, by int) func(*msg) bool {
+		return func(m *msg) bool { return m.kind == "vote" && m.t == t && m.r == rr && m.by == by }
+	}
+	// (a vote only uses up a catch-up round of its peer when it is the FIRST vote X sees of that round)
+	g.byzVote("pv", 7, -1, byz)
+	g.byzVote("pv", 8, -1, byz)
+	g.dlMatch(X, voteOf("pv", 3, g.idx(Y)))
+	g.dlMatch(X, voteOf("pv", 4, g.idx(Z)))
+	g.dlMatch(X, voteOf("pv", 5, g.idx(Z)))
+	g.dlMatch(X, voteOf("pv", 7, byz))
+	g.dlMatch(X, voteOf("pv", 8, byz))
+	g.dlMatch(X, voteOf("pv", 6, g.idx(Y)))
+	g.dlMatch(X, isVote("pv", 6))
+	if rs := g.nt.nodes[X].node.RS(); g.nt.nodes[X].live() && rs.Round == 6 && rs.LockedRound == 0 {
+		stat("skipped-over-the-polka-round")
+	}
+	if r.Intn(2) == 0 {
+		// the releasing polka, explicitly, before the synchrony point
+		g.dlMatch(X, isVote("pv", 2))
+	}
+	g.syncSuffixRounds(140, false, 8)
+	return g.finish("skip-over-polka")
+}
+
 // skewed validator set (reached through validator updates): most of the power walks through the
 // rounds one by one, one node is cut off and then skips several rounds at once
 func genSkipPath(r *rand.Rand) core.Case {
